@@ -211,13 +211,13 @@ inductive WErr | extglobOff | outside
 def wordStep (extglob : Bool) (first : Bool) (s : WF) : Seg → Except WErr WF
   | .unq raw =>
     if first ∧ raw.head? = some cTilde then .error .outside   -- tilde expansion: not modelled
-    else
-      let s := if first then s.add ⟨[], true⟩ else s
-      .ok (s.add ⟨unbackslash raw, false⟩)
+    else if raw = [] then .ok s      -- an empty literal adds nothing (no tilde prefix either)
+    else .ok (s.add ⟨unbackslash raw, false⟩)
   | .sq v => .ok ({ s with allowEmpty := true }.add ⟨v, true⟩)
   | .dq raw =>
     let s := { s with allowEmpty := true }
-    .ok (if raw = [] then s else s.add ⟨unescDq raw, true⟩)
+    -- an empty "" still contributes an (empty, quoted) part
+    .ok (if raw = [] then s.add ⟨[], true⟩ else s.add ⟨unescDq raw, true⟩)
   | .par v => .ok (splitAdd s v)
   | .ext t => if extglob then .ok (s.add ⟨t, false⟩) else .error .extglobOff
 
@@ -621,6 +621,18 @@ def emptyAfterPattern (cfg : Cfg) : Bool → Bool → List (List PC) → Bool
     (cs.isEmpty && patSeen && !rest.isEmpty && started) ||
       emptyAfterPattern cfg true (patSeen || compIsPattern cfg cs) rest
 
+/-- An extended-glob operator followed by `(` whose group is not closed within the component. -/
+def unterminatedExt : Nat → Str → Bool
+  | 0, _ => false
+  | _ + 1, [] => false
+  | fuel + 1, c :: rest =>
+    if c = cBS then unterminatedExt fuel rest.tail
+    else if isExtOp c && rest.head? == some cLP then
+      match scanGroup false (rest.length + 1) 0 [] [] rest.tail with
+      | .ok (some _) => unterminatedExt fuel rest
+      | _ => true
+    else unterminatedExt fuel rest
+
 inductive SpecRes
   | outside
   | ok (fields : List Str)
@@ -645,6 +657,7 @@ where
       -- its own way: both kept out
       else if !cfg.extglob ∧ hasExtGroup (compPat chars) then .outside
       else if cfg.extglob ∧ hasExtGroup (compPat chars) ∧ chars.any (fun x => x.q && (x.c == cLP || x.c == cRP || x.c == cBar)) then .outside
+      else if cfg.extglob ∧ comps.any (fun cs => unterminatedExt ((compPat cs).length + 1) (compPat cs)) then .outside
       else if cfg.noglob ∨ !comps.any (compIsPattern cfg) then .ok [pcText chars]
       else
         let found := sortStrs (specLoop root cfg pwd true comps [[]])
